@@ -36,6 +36,9 @@ CHECKS = {
  "C12": dict(level=MC, technique="TLA+ model of the template scanner, strconv.Quote/Unquote and the TEXT lexer rule over character classes (Scanner.tla) checked by TLC; all class sequences within bounds evaluated by the real Evaluator.Template and scanned by the real XScanner; validated by TLC (ScannerTrace.tla)",
    text="TLC proves on the reference model that every class sequence (quote, backslash, parens, @, other; length <= 3/5) written as a quoted literal is delimited by the scanner and read back by the lexer exactly, alone and next to another literal, and that body-only templates pass through modulo @@; negative runs show that the two modelled code deviations (scanner escape flag, lexer longest match) break exactly these invariants. All sequences are instantiated with six representatives for 'other' and evaluated by the real code; TLC compares outputs with the input strings / Unescape(body). The real scanner's token stream is compared with the reference scanner's on all 7k/66k bodies (drift).",
    note="Trusted: class instantiation/decoding in the harness. Known finding: literal ending in a backslash before another literal (generated lexer).", ref="4 C12"),
+ "C13": dict(level="exploration", technique="TLA+ specification of the case structure and precision rule (Values.tla), all cases enumerated by TLC and round-tripped through the real conversions; results validated by TLC (ValuesTrace.tla)",
+   text="Encode/decode fidelity is the family's weak side and claimed at exploration level: Values.tla enumerates the case structure exhaustively (number spellings incl. trailing/leading zeros, signs, 30-digit coefficients; date-times over boundary years 1..9999, month/day/hour/minute/second/fraction classes x 3 date formats x 4 time formats x 7 default languages + ISO; JSON shapes with escapes, exponent/big numbers, duplicate and case-variant keys) and defines what survives rendering (Trunc). Each case goes through the real ToXText/ToXNumber/'=' , XDateTime.Format|Render/ToXDateTime in two real time zones, and parse_json/json(); TLC compares the parsed-back fields with Trunc(format, fields) and checks the number and JSON clauses.",
+   note="Trusted: decimal library and tz database (exercised, not modelled), JSON equivalence decided in Go. Two known findings (localized am/pm markers, LMT offsets with seconds).", ref="4 C13"),
  "C14": dict(level=MC, technique="TLA+ model of query trees, Format/Parse/Simplify and of the STRING lexer rule vs strconv.Quote (ContactQL.tla) checked by TLC; enumerated trees and adversarial values built/escaped, formatted and parsed by the real parser; structural comparisons by TLC (QLTrace.tla)",
    text="ContactQL.tla proves within bounds that Format/Parse/Simplify round-trip on all trees (depth 2, fan-out 3) and that a quoted value followed by more query text lexes to exactly that value for every class sequence over quote/backslash/other - and shows that the generated lexer's longest-match rule breaks this (negative run, known finding). Every enumerated tree (4 pools of concrete conditions) and value (13 instantiations, 4 template positions, constructors and ContactQueryEscaping) goes through the real Stringify/ParseQuery twice; TLC checks parsed = Simplify(built), parse(format(parse)) = parse and that an escaped value yields exactly the template's structure. Random query texts over the whole grammar (implicit conditions, aliases, implicit AND, both redaction policies) are round-tripped as direction B.",
    note="Trusted: tree extraction through public accessors. Violations for values ending in a backslash before another quoted literal are a listed known finding (generated lexer).", ref="4 C14"),
